@@ -135,7 +135,13 @@ def search(ctx, protos):
                             fq = c.frequency
                         except Exception as e2:  # noqa
                             fq = 'raises ' + type(e2).__name__
-                        if fq != p['frequency']:
+                        # an encoder that hands a key over to another protocol (Kaseikyo OEM pairs) returns that protocol's code:
+                        # the carrier to report is the one of the decoder the code names
+                        try:
+                            want_fq = c.decoder.frequency if c.decoder.__class__ is not p['cls'] else p['frequency']
+                        except Exception:  # noqa
+                            want_fq = p['frequency']
+                        if fq != want_fq:
                             bad = ('frequency not reported', dict(reported=fq))
                     counts.append(len(frames))
                 finally:
